@@ -6,9 +6,9 @@ from fractions import Fraction
 from harness import common as C
 
 ID = 'C19'
-N = {'quick': 700, 'thorough': 12000}
+N = {'quick': 600, 'thorough': 12000}
 SEARCH_N = {'quick': 1200, 'thorough': 8000}
-SHARD = 100
+SHARD = 75
 RULE = ('in-memory 1-D files: 1..30 records, 1..5 dependent variables, doubles of magnitude 1e-300..1e300 (mostly 1e-30..1e30), '
         'negative, zero, integers; int and float missing codes (7-digit and longer); masked cells with fill = code or not; 0..8 header '
         'attributes in random order with values containing colons, leading blanks, empty strings, newlines (adversarial), LLOD/ULOD '
@@ -535,6 +535,17 @@ def shrink(case):
             yield dict(case, vars=[dict(v, cells=v['cells'][:q] + v['cells'][q + 1:]) for v in vs])
 
 
-LEVEL_TEXT = 'see Props/C19.v'
-LEVEL_NOTE = 'see TRUSTED'
+LEVEL_TEXT = ('Theorems (Props/C19.v, all closed under the global context) over a character-level Gallina model of ncf2ffi1001 and '
+              'ffi1001.__init__: full strength for all variable/attribute counts: the line classification of the reader\'s if/elif chain '
+              'equals the writer\'s layout iff the declared count is attributes + variables + 15 (C19_line_classes_head, C19_line_classes, '
+              'C19_count_off_by_one), declared = actual header count when no field contains a newline (C19_header_count_exact), each header '
+              'line parser inverts its printer (C19_desc_line, C19_names_line, C19_user_line), %.6e is a canonical 7-digit decimal within half a '
+              'unit of the 7th digit and idempotent (C19_values_seven_digits, C19_values_canonical, C19_print_idempotent); _partial: per-cell mask/value '
+              'round trip and second cycle (C19_cell_roundtrip_partial, C19_second_cycle_cell_partial), auto-detection (C19_autodetect_partial); the '
+              'whole-file composition is UNPROVED (kept as a comment), evaluated by vm_compute on a witness (C19_domain_inhabited) and compared with '
+              'the library on every case; _refuted with vm_compute witnesses = known findings: C19_header_count_refuted, C19_indep_meta_refuted, '
+              'C19_mask_long_code_refuted, C19_mask_fill_refuted, C19_value_collision_refuted, C19_lod_flag_refuted, C19_name_slash_refuted, '
+              'C19_unit_comma_refuted, C19_autodetect_refuted, C19_autodetect_level_refuted. Tie H: text line by line, reader result, getreader class, second cycle.')
+LEVEL_NOTE = ('Trusted: Coq kernel + vm_compute; the harness; binary64 <-> <=15-digit decimal round trip and glibc %.6e rounding (checked per case); '
+              'numpy.genfromtxt semantics as modelled; date-line parsing not modelled.')
 TECHNIQUE = 'Coq proof (induction over variables / attributes / header lines) + vm_compute refutation witnesses + differential correspondence'
